@@ -50,3 +50,13 @@ func Protect(f func()) {
 	defer mu.RUnlock()
 	f()
 }
+
+// Big serialises memory-hungry work (compiling a whole verifier circuit takes several GB):
+// at most two such jobs run at a time.
+var bigSem = make(chan struct{}, 2)
+
+func Big(f func()) {
+	bigSem <- struct{}{}
+	defer func() { <-bigSem }()
+	f()
+}
